@@ -257,3 +257,37 @@ func factsStoreConstructors() {
 	}
 	defStrList("storeConstructorResults", types)
 }
+
+// factsPools: uses of sync.Pool in pike's own non-test code.  The models treat keys, bodies, records and entry
+// objects as values owned by whoever holds them; a pooled backing array that is handed on while somebody still
+// holds the previous value breaks that silently.
+func factsPools() {
+	section("sync.Pool in the module's non-test files")
+	var sites []string
+	dirs := []string{".", "app", "cache", "compress", "config", "location", "server", "store", "upstream", "util", "hooks", "schedule", "log"}
+	for _, d := range dirs {
+		ents, err := os.ReadDir(filepath.Join(repo, d))
+		if err != nil {
+			continue
+		}
+		for _, e := range ents {
+			n := e.Name()
+			if e.IsDir() || !strings.HasSuffix(n, ".go") || strings.HasSuffix(n, "_test.go") {
+				continue
+			}
+			rel := filepath.Join(d, n)
+			f := parse(rel)
+			if f == nil {
+				continue
+			}
+			ast.Inspect(f, func(x ast.Node) bool {
+				if se, ok := x.(*ast.SelectorExpr); ok && nsrc(se) == "sync.Pool" {
+					sites = append(sites, fmt.Sprintf("%s:%d", rel, fset.Position(se.Pos()).Line))
+				}
+				return true
+			})
+		}
+	}
+	sort.Strings(sites)
+	defStrList("syncPoolSites", sites)
+}
